@@ -41,6 +41,20 @@ theorem idxOf_getElem {l : List α} (hnd : l.Nodup) {i : Nat} (hi : i < l.length
   have e1 : l[l.idxOf l[i]] = l[i] := List.getElem_idxOf h1
   exact (List.getElem_inj hnd).1 e1
 
+theorem lookup_none_of_forall_ne {l : List (α × Nat)} {k : α} (h : ∀ p ∈ l, p.1 ≠ k) :
+    l.lookup k = none := by
+  induction l with
+  | nil => rfl
+  | cons p ps ih =>
+    rw [List.lookup_cons]
+    have hne : (k == p.1) = false := by
+      apply Bool.eq_false_iff.2
+      intro heq
+      have : k = p.1 := by simpa using heq
+      exact h p (by simp) this.symm
+    rw [hne]
+    exact ih (fun q hq => h q (by simp [hq]))
+
 /-! ### the invariant -/
 
 /-- `by_id` has no duplicates and `by_value` is the graph of `v ↦ toId (index of v in by_id)`. -/
@@ -345,7 +359,97 @@ theorem wraps_from (bits : Nat) (m : IdMap α) (f : Nat → α) (hf : ∀ i j, f
   have : m.byId.length + (2 ^ bits - m.byId.length) = 2 ^ bits := by omega
   rw [this, toId_pow]
 
+/-! ### histories below capacity -/
+
+/-- Below capacity the ids of a history are the plain indices in the final table. -/
+theorem registerAll_ids_bounded {bits : Nat} {m : IdMap α} (h : Inv bits m) (vs : List α)
+    (hb : (registerAll bits m vs).1.byId.length ≤ 2 ^ bits) :
+    (registerAll bits m vs).2 = vs.map (fun v => (registerAll bits m vs).1.byId.idxOf v) := by
+  conv => lhs; rw [registerAll_ids h vs]
+  apply List.map_congr_left
+  intro v hv
+  apply toId_of_lt
+  have hm : v ∈ (registerAll bits m vs).1.byId := (registerAll_mem h vs v).2 (Or.inr hv)
+  exact Nat.lt_of_lt_of_le (List.idxOf_lt_length_of_mem hm) hb
+
+/-- Below capacity, every value of the history is found by both lookups under the id it got. -/
+theorem registerAll_lookup_bounded {bits : Nat} {m : IdMap α} (h : Inv bits m) (vs : List α)
+    (hb : (registerAll bits m vs).1.byId.length ≤ 2 ^ bits) {v : α} (hv : v ∈ vs) :
+    getId (registerAll bits m vs).1 v = some ((registerAll bits m vs).1.byId.idxOf v) ∧
+    getValue (registerAll bits m vs).1 ((registerAll bits m vs).1.byId.idxOf v) = some v := by
+  have hinv := registerAll_inv h vs
+  have hm : v ∈ (registerAll bits m vs).1.byId := (registerAll_mem h vs v).2 (Or.inr hv)
+  have h1 : getId (registerAll bits m vs).1 v = some ((registerAll bits m vs).1.byId.idxOf v) :=
+    (getId_eq_some_iff hinv hb v _).2 ⟨hm, rfl⟩
+  exact ⟨h1, (getValue_eq_some_iff hinv hb v _).2 h1⟩
+
 end IdMap
+
+/-! ### the three tables of a `Xot` -/
+
+namespace Interner
+open IdMap Gen
+
+/-- All three tables satisfy the invariant at their own id width. -/
+structure Inv (x : Interner) : Prop where
+  ns : IdMap.Inv namespaceIdBits x.namespaceLookup
+  pf : IdMap.Inv prefixIdBits x.prefixLookup
+  nm : IdMap.Inv nameIdBits x.nameLookup
+
+theorem step_inv (s : NewState) (r : BuiltinReg)
+    (h : IdMap.Inv namespaceIdBits s.ns ∧ IdMap.Inv prefixIdBits s.pf ∧ IdMap.Inv nameIdBits s.nm) :
+    IdMap.Inv namespaceIdBits (s.step r).ns ∧ IdMap.Inv prefixIdBits (s.step r).pf ∧
+      IdMap.Inv nameIdBits (s.step r).nm := by
+  obtain ⟨h1, h2, h3⟩ := h
+  unfold NewState.step
+  split
+  · exact ⟨getIdMut_inv h1 _, h2, h3⟩
+  · exact ⟨h1, getIdMut_inv h2 _, h3⟩
+  · exact ⟨h1, h2, getIdMut_inv h3 _⟩
+
+theorem foldl_step_inv (regs : List BuiltinReg) (s : NewState)
+    (h : IdMap.Inv namespaceIdBits s.ns ∧ IdMap.Inv prefixIdBits s.pf ∧ IdMap.Inv nameIdBits s.nm) :
+    IdMap.Inv namespaceIdBits (regs.foldl NewState.step s).ns ∧
+      IdMap.Inv prefixIdBits (regs.foldl NewState.step s).pf ∧
+      IdMap.Inv nameIdBits (regs.foldl NewState.step s).nm := by
+  induction regs generalizing s with
+  | nil => exact h
+  | cons r rs ih => exact ih _ (step_inv s r h)
+
+/-- `Xot::new()` satisfies the invariant, whatever `builtinRegistrations` says. -/
+theorem inv_new : Inv Interner.new := by
+  have h := foldl_step_inv builtinRegistrations {}
+    ⟨IdMap.inv_empty _, IdMap.inv_empty _, IdMap.inv_empty _⟩
+  exact ⟨h.1, h.2.1, h.2.2⟩
+
+theorem inv_addNameNs {x : Interner} (h : Inv x) (l : Str) (ns : Nat) : Inv (x.addNameNs l ns).1 :=
+  ⟨h.ns, h.pf, getIdMut_inv h.nm _⟩
+
+theorem inv_addNamespace {x : Interner} (h : Inv x) (s : Str) : Inv (x.addNamespace s).1 :=
+  ⟨getIdMut_inv h.ns _, h.pf, h.nm⟩
+
+theorem inv_addPrefix {x : Interner} (h : Inv x) (s : Str) : Inv (x.addPrefix s).1 :=
+  ⟨h.ns, getIdMut_inv h.pf _, h.nm⟩
+
+/-- Everything a program can reach from `Xot::new()`: the public registration calls, the
+    `get_id_mut` calls `parse` and `html5()` make on the same three tables (the same three
+    constructors), and `clone`. -/
+inductive Reachable : Interner → Prop where
+  | new : Reachable Interner.new
+  | addNameNs (x : Interner) (l : Str) (ns : Nat) : Reachable x → Reachable (x.addNameNs l ns).1
+  | addNamespace (x : Interner) (s : Str) : Reachable x → Reachable (x.addNamespace s).1
+  | addPrefix (x : Interner) (s : Str) : Reachable x → Reachable (x.addPrefix s).1
+  | clone (x : Interner) : Reachable x → Reachable x.clone
+
+theorem Reachable.inv {x : Interner} (h : Reachable x) : Inv x := by
+  induction h with
+  | new => exact inv_new
+  | addNameNs x l ns _ ih => exact inv_addNameNs ih l ns
+  | addNamespace x s _ ih => exact inv_addNamespace ih s
+  | addPrefix x s _ ih => exact inv_addPrefix ih s
+  | clone x _ ih => exact ih
+
+end Interner
 
 /-! ### the values of the long history are pairwise distinct -/
 
